@@ -532,15 +532,7 @@ def emit_block(block: Block, indent: int = 0, format_options: FormatOptions | No
             # when a fenced literal zone appears directly in the block body (no key prefix).
             # Emit just the fence block lines without a key:: header line.
             if child.key == "" and isinstance(child.value, LiteralZoneValue):
-                child_indent_str = "  " * (indent + 1)
-                lzv = child.value
-                opening = f"{child_indent_str}{lzv.fence_marker}"
-                if lzv.info_tag:
-                    opening += lzv.info_tag
-                lines.append(opening)
-                if lzv.content:
-                    lines.append(lzv.content)
-                lines.append(f"{child_indent_str}{lzv.fence_marker}")
+                lines.extend(_emit_bare_literal_zone(child, indent + 1, strip_comments))
             else:
                 lines.append(emit_assignment(child, indent + 1, format_options))
         elif isinstance(child, Block):
@@ -553,6 +545,25 @@ def emit_block(block: Block, indent: int = 0, format_options: FormatOptions | No
                 lines.append(comment_str)
 
     return "\n".join(lines)
+
+
+def _emit_bare_literal_zone(child: Assignment, indent: int, strip_comments: bool = False) -> list[str]:
+    """Emit a bare-key literal zone child (key="") of a block or section.
+
+    The fence lines are written at the child's indentation, the content verbatim, and the
+    comments that preceded the zone are kept in front of it.
+    """
+    lines = _emit_leading_comments(child.leading_comments, indent, strip_comments)
+    indent_str = "  " * indent
+    lzv = child.value
+    opening = f"{indent_str}{lzv.fence_marker}"
+    if lzv.info_tag:
+        opening += lzv.info_tag
+    lines.append(opening)
+    if lzv.content:
+        lines.append(lzv.content)
+    lines.append(f"{indent_str}{lzv.fence_marker}")
+    return lines
 
 
 def emit_section(section: Section, indent: int = 0, format_options: FormatOptions | None = None) -> str:
@@ -594,7 +605,10 @@ def emit_section(section: Section, indent: int = 0, format_options: FormatOption
         if isinstance(child, Assignment):
             if is_absent(child.value):
                 continue
-            lines.append(emit_assignment(child, indent + 1, format_options))
+            if child.key == "" and isinstance(child.value, LiteralZoneValue):
+                lines.extend(_emit_bare_literal_zone(child, indent + 1, strip_comments))
+            else:
+                lines.append(emit_assignment(child, indent + 1, format_options))
         elif isinstance(child, Block):
             lines.append(emit_block(child, indent + 1, format_options))
         elif isinstance(child, Section):
